@@ -322,6 +322,15 @@ func c19Histories(r *core.Run) {
 				rcv(20, false, false) // b trusts m0 from here on
 				rcv(42, true, true)
 				rcv(43, true, true)
+				// the same once more while the Lightning payment of the cross-mint leg fails (the swap at
+				// the token's mint has happened by then), followed by an ordinary operation at that mint
+				node := w.Mints[0].Env.Node
+				saved := node.DefaultPay
+				node.DefaultPay = lnmodel.PayPlan{Answer: lnmodel.AFailed}
+				rcv(44, true, true)
+				node.DefaultPay = saved
+				rcv(21, false, false)
+				s.OpFund(b, 30, m0)
 			}
 		}
 		for i := 0; i < nops && r.Violations() < 10; i++ {
